@@ -261,6 +261,13 @@ func (c *contentValidator) ValidatePermissionChange(ch *aclrecordproto.AclAccoun
 		return ErrInsufficientPermissions
 	}
 
+	if currentState.Permissions.NoPermissions() {
+		// an account without permissions (removed, declined, or only requesting to join) does not hold the current
+		// read key: it can only be (re)admitted by a change that carries the key (accounts add, request accept,
+		// invite join), never by a bare permission change
+		return ErrNoSuchAccount
+	}
+
 	return
 }
 
